@@ -18,7 +18,7 @@ theorem quotient_sound_poly_any_sound_table (O : Oracle) (hO : O.Certified) (tie
       TL.holds c1.a v ∧ TL.holds q.a v ∧ TL.holds c.g v :=
   Alg.quotient_sound PTerm.holds PTerm.vars _ (polyPrims_spec O hO tie false tac rfl) c c1 q addl simp ord hord h
 
-theorem quotient_sound_poly (O : Oracle) (hO : O.Certified) (tie : PTerm → Bool) (hint : PTerm → TL → Bool → Option (List Nat))
+theorem quotient_sound_poly (O : Oracle) (hO : O.Certified) (tie : PTerm → Bool) (hint : PTerm → TL → List Var → Bool → Option (List Nat))
     (c c1 q : Contract PTerm) (addl : List Var) (simp : Bool) (ord : List Nat) 
     (h : quotient (polyPrims O tie false (realTac O false hint)) c c1 addl simp ord = .ok q) :
     ∀ v, TL.holds c.a v → (TL.holds c1.a v → TL.holds c1.g v) → (TL.holds q.a v → TL.holds q.g v) →
